@@ -48,6 +48,7 @@ func round12(c *Ctx, r *Report, p string) {
 		namesNotComparedAsStrings(c, r, "C19.R6.names-not-compared-as-strings")
 		noOverlappingScratch(c, r, "C19.R2.no-overlapping-scratch", []string{"CompareDomainName", "Split", "IsSubDomain", "CountLabel"})
 	case "C06":
+		directiveArgsNotKeywords(c, r, "C06.R2.directive-args-not-keywords")
 		digitShortcutTestsWhatItPrints(c, r, "C06.R5.digit-shortcut")
 	}
 }
